@@ -263,6 +263,68 @@ func c18(r *Run) {
 			r.ob(fmt.Sprintf("C18.R3:shrink-closes-surplus#%d", i+1), "the surplus pollers that are closed are the elements of the current pool m.polls from the new size up to len(m.polls) (a loop bounded by the new, shorter slice closes nothing)", run, c, fromOld && boundOld, fmt.Sprintf("element of m.polls=%v, loop bound len(m.polls)=%v", fromOld, boundOld), true)
 		}
 	}
+	// a balancer created for a new mode starts with the pool as it is: Run returns early when the size did not change, so
+	// nobody else would hand it the pollers
+	{
+		slb := w.MustFn("(*manager).SetLoadBalance")
+		newLB := w.MustFn("newLoadbalance")
+		n := 0
+		for _, site := range findIns(slb, func(i ssa.Instruction) bool { return isCall(i, newLB) }) {
+			n++
+			_, okArg := loadOfField(callCommon(site).Args[1], "manager", "polls")
+			if !okArg {
+				// ... or it is told right afterwards
+				ss := &Search{Fn: slb, Stop: isRebalance}
+				okArg = ss.Find([]Start{After(site)}, nil, true) == nil
+				r.Visited += ss.Visited
+			}
+			r.ob("C18.R3:new-balancer-gets-current-pool", "the balancer SetLoadBalance creates for a new mode is given the manager's current pollers: a mode change on a running pool of unchanged size is not followed by any Rebalance (Run returns early), and an empty balancer panics in Pick", slb, site, okArg, "newLoadbalance(lb, m.polls)", true)
+		}
+		if n == 0 {
+			r.absentf(" C18: SetLoadBalance creates no balancer")
+		}
+		// Configure passes every valid mode on, the zero value (RoundRobin) included
+		cfg := w.MustFn("Configure")
+		for _, site := range findIns(cfg, func(i ssa.Instruction) bool { return isCall(i, slb) }) {
+			admitsZero := true
+			detail := "unconditional"
+			for _, g := range guardChain(site.Block()) {
+				b, ok := g.Cond.(*ssa.BinOp)
+				if !ok {
+					continue
+				}
+				if _, _, _, isF := fieldOfLoad(b.X, "Config", "LoadBalance"); !isF {
+					continue
+				}
+				k, okc := constInt(b.Y)
+				if !okc {
+					continue
+				}
+				var truth bool
+				switch b.Op {
+				case token.GEQ:
+					truth = 0 >= k
+				case token.GTR:
+					truth = 0 > k
+				case token.LEQ:
+					truth = 0 <= k
+				case token.LSS:
+					truth = 0 < k
+				case token.EQL:
+					truth = 0 == k
+				case token.NEQ:
+					truth = 0 != k
+				default:
+					continue
+				}
+				detail = fmt.Sprintf("guard LoadBalance %s %d on the %v branch", b.Op, k, g.Branch)
+				if truth != g.Branch {
+					admitsZero = false
+				}
+			}
+			r.ob("C18.R3:configure-passes-zero-mode", "Configure hands the configured balancing mode to the manager also when it is the zero value (RoundRobin): switching a Random pool back to RoundRobin through Configure takes effect", cfg, site, admitsZero, detail, true)
+		}
+	}
 	// size read atomically and compared with the current pool
 	r.mustPass("C18.R3:size-read", "Run reads the configured size atomically", run, nil, []Start{Entry(run)}, func(i ssa.Instruction) bool { return atomicOn(i, "Load", fNum) }, nil, nil, "Load(numLoops) on every path")
 
